@@ -177,4 +177,29 @@ CHECKS = {
                      "A<->B exchange and linearity of a sum are compared to 2e-5 relative (float arithmetic in another order), everything else bitwise or 1e-6",
                      "small geometries (8..24 detectors, 2..3 rings, <= 9x9x5 voxels); inputs sampled"],
     ),
+    "C05": dict(
+        level="exploration",
+        parts=[dict(harness="chk_C05", variant="seq", src="checks/chk_C05.cpp",
+                    runs=dict(quick=4000, thorough=160000), wall_cap=dict(quick=110, thorough=2400)),
+               dict(harness="chk_C05", variant="omp", src="checks/chk_C05.cpp",
+                    runs=dict(quick=1200, thorough=60000), wall_cap=dict(quick=70, thorough=1500))],
+        rule=("seq part: one case = generated small problem (scanner, TOF on/off, symmetries on/off, additive term, trivial / proj-data / "
+              "chained normalisation, zero_seg0_end_planes, max_segment_num_to_process, subset sensitivities on/off, legal number of "
+              "subsets, prior on/off, sensitivities computed at set-up / read from files written by an earlier object / forced to 1) and "
+              "2..16 operations on ONE objective-function object: value, gradient, gradient+sensitivity, sensitivity, Hessian x vector, "
+              "approximate Hessian x vector (subset / full / penalised), set_up again, set_num_subsets + set_up.  Every answer is compared "
+              "with the expression evaluated in double precision on the explicit system matrix, bitwise with the answer of a fresh object "
+              "whose FIRST request it is, and bitwise with earlier answers to the same request.  omp part: value, gradients, sensitivity "
+              "and Hessian products in a drawn order with 2..16 simulated threads vs one thread.  Non-trivial = >= 2 operations (seq) or "
+              ">= 1 context switch (omp); distinct = (operation history, schedule hash)."),
+        components=dict(real=REAL_COMMON + ["PoissonLogLikelihoodWithLinearModelForMeanAndProjData and its base classes, distributable_computation, "
+                                            "projector pair using the ray-tracing matrix, BinNormalisationFromProjData / Chained / Trivial, QuadraticPrior, "
+                                            "Interfile output/input of sensitivity files"],
+                        stub=["explicit system matrix from the ray-tracing matrix without cache (reference)", "omp part: libgomp and libtsan replaced by simgomp/simtsan"]),
+        assumptions=["reference rows = the library's own ray-tracing matrix without cache, same symmetry switches (C03 covers symmetries)",
+                     "data are generated so that y_b = 0 wherever the model mean is 0 (the property's domain ybar_b > 0) and no quotient is clipped",
+                     "TOF data: sensitivity reference uses the non-TOF rows, as the library documents for use_tofsens = false; normalisation data are non-TOF",
+                     "the prior's own value and gradient are taken from the library (C09 is not claimed)",
+                     "inputs and configurations are sampled; the order-of-first-use and thread clauses are what the simulation decides"],
+    ),
 }
